@@ -12,10 +12,12 @@ Theorem C14_date : forall y m d, date_dom y m d = true ->
   exists s, date_to (cv_date y m d) = Some s /\ date_of s = Some (cv_date y m d).
 Proof. exact date_roundtrip. Qed.
 Print Assumptions C14_date.
-(* every date-time of years 1..9999, printed with ANY non-empty zone abbreviation (UTC, AEDT, -03, +0545, ...) *)
+(* every date-time of years 1..9999, printed with the zone abbreviation in force (whatever it is: UTC, AEDT, -03, +0545, ...
+   - the one Go prints and, reading its own print, resolves to the same offset; an abbreviation naming ANOTHER offset of the
+   same location is outside the model) *)
 Theorem C14_datetime : forall y m d h mi s abbr, datetime_dom y m d h mi s = true -> abbr <> [] ->
   exists t, datetime_to (VL [VZ y; VZ m; VZ d; VZ h; VZ mi; VZ s]) abbr = Some t
-            /\ datetime_of t = Some (VL [VZ y; VZ m; VZ d; VZ h; VZ mi; VZ s]).
+            /\ datetime_of abbr t = DOk (VL [VZ y; VZ m; VZ d; VZ h; VZ mi; VZ s]).
 Proof. exact datetime_roundtrip14. Qed.
 Print Assumptions C14_datetime.
 Theorem C14_hhmm : forall h m, hhmm_dom h m = true -> exists s, hhmm_to (cv_hhmm h m) = Some s /\ hhmm_of s = Some (cv_hhmm h m).
@@ -103,7 +105,7 @@ Theorem C14_date_rejects : forall y1 y2 y3 y4 m1 m2 d1 d2,
 Proof. exact date_rejects. Qed.
 Print Assumptions C14_date_rejects.
 Theorem C14_datetime_rejects : forall (dte tme rest : list N) c, length dte = 10%nat -> length tme = 8%nat ->
-  parse_date10 dte = None \/ parse_time8 tme = None -> datetime_of (dte ++ c :: tme ++ rest) = None.
+  parse_date10 dte = None \/ parse_time8 tme = None -> forall inforce, datetime_of inforce (dte ++ c :: tme ++ rest) = DErr.
 Proof. exact datetime_rejects. Qed.
 Print Assumptions C14_datetime_rejects.
 (* hh:mm with two-digit fields beyond 24:00 or minutes above 59 (24:01, 23:60, 25:00, 99:99) *)
@@ -159,6 +161,6 @@ Example C14_ex :
   /\ must_reject TyPIN (JStr [49;48;48;48;48;48;48]) = true                                 (* "1000000" *)
   /\ must_reject TyDate (JStr [50;48;50;51;45;48;50;45;50;57]) = true                       (* "2023-02-29" *)
   /\ must_reject TyTaskType (JNum 14) = true /\ must_reject TyTaskType (JNum 0) = true
-  /\ datetime_of [50;48;50;52;45;48;51;45;49;48;32;49;50;58;51;48;58;48;48;32;43;48;53;52;53]
-     = Some (VL [VZ 2024; VZ 3; VZ 10; VZ 12; VZ 30; VZ 0])%Z.                              (* "2024-03-10 12:30:00 +0545" *)
+  /\ datetime_of [43;48;53;52;53] [50;48;50;52;45;48;51;45;49;48;32;49;50;58;51;48;58;48;48;32;43;48;53;52;53]
+     = DOk (VL [VZ 2024; VZ 3; VZ 10; VZ 12; VZ 30; VZ 0])%Z.                              (* "2024-03-10 12:30:00 +0545" *)
 Proof. vm_compute. repeat split; reflexivity. Qed.
